@@ -68,8 +68,13 @@ theorem checkPubKey_wf {σ : Type} (set : Bytes → σ → σ) (k : Bytes) (h : 
 def Execution.wf (e : Execution) : Prop := e.pendingChannelID.length = 32
 
 theorem execution_roundtrip (cfg : Cfg) (e : Execution) (h : e.wf) :
-    ∃ b, serializeExecution e = .ok b ∧ deserializeExecution cfg b = .ok e := by
-  refine ⟨encAligned executionRecs [some e.pendingChannelID], ?_, ?_⟩
+    ∃ b, serializeExecution e = .ok b ∧ deserializeExecution cfg b = .ok e ∧ b.length ≤ 1000 := by
+  refine ⟨encAligned executionRecs [some e.pendingChannelID], ?_, ?_, ?_⟩
+  rotate_left 2
+  · have := encAligned_length_le executionRecs [some e.pendingChannelID]
+    have h' : e.pendingChannelID.length = 32 := h
+    simp only [boundAligned, h'] at this
+    omega
   · simp [serializeExecution, encodeBytes, sortRecords, insertRec, sortedTypes, encodeRecords, encAligned,
       executionRecs]
   · unfold deserializeExecution decodeBytes decodeStream
@@ -95,8 +100,13 @@ def Order.wf (o : Order) : Prop :=
 def orderVals (o : Order) : List (Option Bytes) := [some o.bidNonce, o.sigOrderDigest.map sigBytes]
 
 theorem order_roundtrip (cfg : Cfg) (o : Order) (h : o.wf) :
-    ∃ b, serializeOrder o = .ok b ∧ deserializeOrder cfg b = .ok o := by
-  refine ⟨encAligned orderRecs (orderVals o), ?_, ?_⟩
+    ∃ b, serializeOrder o = .ok b ∧ deserializeOrder cfg b = .ok o ∧ b.length ≤ 1000 := by
+  refine ⟨encAligned orderRecs (orderVals o), ?_, ?_, ?_⟩
+  rotate_left 2
+  · have := encAligned_length_le orderRecs (orderVals o)
+    obtain ⟨n, sg⟩ := o
+    have hn : n.length = 32 := h.1
+    cases sg <;> simp only [orderVals, Option.map, boundAligned, hn, sigBytes_length] at this ⊢ <;> omega
   · obtain ⟨n, sg⟩ := o
     cases sg <;>
       simp [serializeOrder, encodeBytes, sortRecords, insertRec, sortedTypes, encodeRecords, encAligned,
@@ -136,5 +146,458 @@ theorem order_roundtrip (cfg : Cfg) (o : Order) (h : o.wf) :
     | some g =>
       have hw := hg g rfl
       simp [stepAligned, orderRecs, orderVals, bidNonceType, sigOrderDigestType, parseSig_sigBytes g hw]
+
+end Pool.Dec
+
+namespace Pool.Dec
+open Pool.Gen.C15
+
+/-! ### recipient -/
+
+def Recipient.wf (r : Recipient) : Prop :=
+  r.multiSigKeyIndex < 2 ^ 32 ∧ (∀ k, r.nodePubKey = some k → keyWF k) ∧ (∀ k, r.multiSigPubKey = some k → keyWF k)
+
+def recipientVals (r : Recipient) : List (Option Bytes) :=
+  [r.nodePubKey, r.multiSigPubKey, some (toBE 4 r.multiSigKeyIndex)]
+
+def recipientStep (t : Nat) (v : Bytes) (r : Recipient) : Recipient :=
+  if t = nodePubKeyType then { r with nodePubKey := some v }
+  else if t = multiSigPubKeyType then { r with multiSigPubKey := some v }
+  else { r with multiSigKeyIndex := beNat v }
+
+theorem key_good {σ : Type} (set : Bytes → σ → σ) (k : Bytes) (h : keyWF k) :
+    k.length ≤ maxRecordSize ∧ ∀ rest s, dChecked 33 (checkPubKey set) k.length (k ++ rest) s = .ok (set k s, rest) :=
+  ⟨by rw [h.1]; decide, fun rest s => dChecked_roundtrip 33 _ k rest s _ h.1 (checkPubKey_wf set k h s)⟩
+
+theorem static_good {σ : Type} (n : Nat) (hn : n ≤ maxRecordSize) (set : Bytes → σ → σ) (v : Bytes) (h : v.length = n) :
+    v.length ≤ maxRecordSize ∧ ∀ rest s, dStatic n set v.length (v ++ rest) s = .ok (set v s, rest) :=
+  ⟨by rw [h]; exact hn, fun rest s => dStatic_roundtrip n set v rest s h⟩
+
+theorem recipient_roundtrip (cfg : Cfg) (r : Recipient) (h : r.wf) :
+    ∃ b, serializeRecipient r = .ok b ∧ deserializeRecipient cfg b = .ok r ∧ b.length ≤ 1000 := by
+  refine ⟨encAligned recipientRecs (recipientVals r), ?_, ?_, ?_⟩
+  rotate_left 2
+  · have := encAligned_length_le recipientRecs (recipientVals r)
+    obtain ⟨n, m, i⟩ := r
+    have hn := h.2.1
+    have hm := h.2.2
+    simp only at hn hm
+    cases n with
+    | none =>
+      cases m with
+      | none => simp only [recipientVals, boundAligned, toBE_length] at this ⊢; omega
+      | some mk => have := (hm mk rfl).1; simp only [recipientVals, boundAligned, toBE_length] at *; omega
+    | some nk =>
+      have hk := (hn nk rfl).1
+      cases m with
+      | none => simp only [recipientVals, boundAligned, toBE_length] at *; omega
+      | some mk => have := (hm mk rfl).1; simp only [recipientVals, boundAligned, toBE_length] at *; omega
+  · obtain ⟨n, m, i⟩ := r
+    cases n <;> cases m <;>
+      simp [serializeRecipient, encodeBytes, sortRecords, insertRec, sortedTypes, encodeRecords, encAligned,
+        recipientRecs, recipientVals, optRec, nodePubKeyType, multiSigPubKeyType, multiSigKeyIndexType]
+  · unfold deserializeRecipient decodeBytes decodeStream
+    have hs : sortedTypes (recipientRecs.map (·.typ)) = true := by decide
+    rw [if_pos hs]
+    obtain ⟨n, m, i⟩ := r
+    obtain ⟨hi, hn, hm⟩ := h
+    simp only at hi hn hm
+    have hidx := static_good (σ := Recipient) 4 (by decide) (fun v r => { r with multiSigKeyIndex := beNat v })
+      (toBE 4 i) (toBE_length 4 i)
+    have hmain := decodeLoop_encAligned cfg.p2pSub cfg.maxAlloc false recipientStep
+      recipientRecs (recipientVals ⟨n, m, i⟩) 0 {} [] _
+      (by simp [recipientRecs, IncFrom, nodePubKeyType, multiSigPubKeyType, multiSigKeyIndexType])
+      (by
+        cases n with
+        | none =>
+          cases m with
+          | none =>
+            refine ⟨hidx.1, ?_, trivial⟩
+            intro rest s
+            simpa [recipientStep, nodePubKeyType, multiSigPubKeyType, multiSigKeyIndexType] using hidx.2 rest s
+          | some mk =>
+            have hk := key_good (σ := Recipient) (fun c r => { r with multiSigPubKey := some c }) mk (hm mk rfl)
+            refine ⟨hk.1, ?_, hidx.1, ?_, trivial⟩
+            · intro rest s
+              simpa [recipientStep, nodePubKeyType, multiSigPubKeyType] using hk.2 rest s
+            · intro rest s
+              simpa [recipientStep, nodePubKeyType, multiSigPubKeyType, multiSigKeyIndexType] using hidx.2 rest s
+        | some nk =>
+          have hk1 := key_good (σ := Recipient) (fun c r => { r with nodePubKey := some c }) nk (hn nk rfl)
+          cases m with
+          | none =>
+            refine ⟨hk1.1, ?_, hidx.1, ?_, trivial⟩
+            · intro rest s
+              simpa [recipientStep, nodePubKeyType] using hk1.2 rest s
+            · intro rest s
+              simpa [recipientStep, nodePubKeyType, multiSigPubKeyType, multiSigKeyIndexType] using hidx.2 rest s
+          | some mk =>
+            have hk := key_good (σ := Recipient) (fun c r => { r with multiSigPubKey := some c }) mk (hm mk rfl)
+            refine ⟨hk1.1, ?_, hk.1, ?_, hidx.1, ?_, trivial⟩
+            · intro rest s
+              simpa [recipientStep, nodePubKeyType] using hk1.2 rest s
+            · intro rest s
+              simpa [recipientStep, nodePubKeyType, multiSigPubKeyType] using hk.2 rest s
+            · intro rest s
+              simpa [recipientStep, nodePubKeyType, multiSigPubKeyType, multiSigKeyIndexType] using hidx.2 rest s)
+      (Nat.lt_succ_self _)
+    rw [hmain]
+    have hb : beNat (toBE 4 i) = i := beNat_toBE 4 i (by omega)
+    cases n <;> cases m <;>
+      simp [stepAligned, recipientRecs, recipientVals, recipientStep, nodePubKeyType, multiSigPubKeyType,
+        multiSigKeyIndexType, hb]
+
+end Pool.Dec
+
+namespace Pool.Dec
+open Pool.Gen.C15
+
+/-! ### building `Good` record by record -/
+
+theorem good_cons_some {σ : Type} {step : Nat → Bytes → σ → σ} {r : Rec σ} {rs : List (Rec σ)} {v : Bytes}
+    {vs : List (Option Bytes)} (h1 : v.length ≤ maxRecordSize)
+    (h2 : ∀ rest s, r.dec v.length (v ++ rest) s = .ok (step r.typ v s, rest)) (h3 : Good step rs vs) :
+    Good step (r :: rs) (some v :: vs) := ⟨h1, h2, h3⟩
+
+theorem good_cons_opt {σ : Type} {step : Nat → Bytes → σ → σ} {r : Rec σ} {rs : List (Rec σ)} (o : Option Bytes)
+    {vs : List (Option Bytes)}
+    (h : ∀ v, o = some v → v.length ≤ maxRecordSize ∧ ∀ rest s, r.dec v.length (v ++ rest) s = .ok (step r.typ v s, rest))
+    (h3 : Good step rs vs) : Good step (r :: rs) (o :: vs) := by
+  cases o with
+  | none => exact h3
+  | some v => exact ⟨(h v rfl).1, (h v rfl).2, h3⟩
+
+/-! ### offer -/
+
+def Offer.wf (o : Offer) : Prop :=
+  o.capacity < 2 ^ 64 ∧ o.pushAmt < 2 ^ 64 ∧ o.leaseDuration < 2 ^ 32 ∧
+  (∀ k, o.signPubKey = some k → keyWF k) ∧ (∀ g, o.sigOfferDigest = some g → g.wf = true)
+
+def flagVal (b : Bool) : Option Bytes := if b then some [1] else none
+
+def offerVals (o : Offer) : List (Option Bytes) :=
+  [some (toBE 8 o.capacity), some (toBE 8 o.pushAmt), some (toBE 4 o.leaseDuration), o.signPubKey,
+   o.sigOfferDigest.map sigBytes, some [if o.auto then 1 else 0], flagVal o.unannounced, flagVal o.zeroConf]
+
+def offerStep (t : Nat) (v : Bytes) (a : OfferAcc) : OfferAcc :=
+  if t = capacityType then { a with o := { a.o with capacity := beNat v } }
+  else if t = pushAmtType then { a with o := { a.o with pushAmt := beNat v } }
+  else if t = leaseDurationType then { a with o := { a.o with leaseDuration := beNat v } }
+  else if t = signPubKeyType then { a with o := { a.o with signPubKey := some v } }
+  else if t = sigOfferDigestType then { a with o := { a.o with sigOfferDigest := parseSig v } }
+  else if t = offerAutoType then { a with autoAsInt := beNat v }
+  else if t = unannouncedChannelType then { a with isUnannounced := beNat v }
+  else { a with isZeroConf := beNat v }
+
+theorem offer_good (o : Offer) (h : o.wf) : Good offerStep offerRecs (offerVals o) := by
+  obtain ⟨hc, hp, hl, hk, hg⟩ := h
+  have s8c := static_good (σ := OfferAcc) 8 (by decide) (fun v a => { a with o := { a.o with capacity := beNat v } })
+    (toBE 8 o.capacity) (toBE_length 8 _)
+  have s8p := static_good (σ := OfferAcc) 8 (by decide) (fun v a => { a with o := { a.o with pushAmt := beNat v } })
+    (toBE 8 o.pushAmt) (toBE_length 8 _)
+  have s4 := static_good (σ := OfferAcc) 4 (by decide) (fun v a => { a with o := { a.o with leaseDuration := beNat v } })
+    (toBE 4 o.leaseDuration) (toBE_length 4 _)
+  have sAuto := static_good (σ := OfferAcc) 1 (by decide) (fun v a => { a with autoAsInt := beNat v })
+    [if o.auto then 1 else 0] rfl
+  unfold offerRecs offerVals
+  refine good_cons_some s8c.1 (fun rest s => ?_) ?_
+  · simpa [offerStep, capacityType] using s8c.2 rest s
+  refine good_cons_some s8p.1 (fun rest s => ?_) ?_
+  · simpa [offerStep, capacityType, pushAmtType] using s8p.2 rest s
+  refine good_cons_some s4.1 (fun rest s => ?_) ?_
+  · simpa [offerStep, capacityType, pushAmtType, leaseDurationType] using s4.2 rest s
+  refine good_cons_opt _ (fun k hk' => ?_) ?_
+  · have kg := key_good (σ := OfferAcc) (fun c a => { a with o := { a.o with signPubKey := some c } }) k (hk k hk')
+    refine ⟨kg.1, fun rest s => ?_⟩
+    simpa [offerStep, capacityType, pushAmtType, leaseDurationType, signPubKeyType] using kg.2 rest s
+  refine good_cons_opt _ (fun v hv => ?_) ?_
+  · cases hsg : o.sigOfferDigest with
+    | none => rw [hsg] at hv; cases hv
+    | some g =>
+      rw [hsg] at hv
+      simp only [Option.map] at hv
+      injection hv with hv
+      subst hv
+      have hw := hg g hsg
+      refine ⟨by rw [sigBytes_length]; decide, fun rest s => ?_⟩
+      have := dChecked_roundtrip 64
+        (checkSig fun g (a : OfferAcc) => { a with o := { a.o with sigOfferDigest := some g } })
+        (sigBytes g) rest s _ (sigBytes_length g) (checkSig_sigBytes _ g hw s)
+      simpa [offerStep, capacityType, pushAmtType, leaseDurationType, signPubKeyType, sigOfferDigestType,
+        parseSig_sigBytes g hw] using this
+  refine good_cons_some sAuto.1 (fun rest s => ?_) ?_
+  · simpa [offerStep, capacityType, pushAmtType, leaseDurationType, signPubKeyType, sigOfferDigestType,
+      offerAutoType] using sAuto.2 rest s
+  refine good_cons_opt _ (fun v hv => ?_) ?_
+  · have sU := static_good (σ := OfferAcc) 1 (by decide) (fun v a => { a with isUnannounced := beNat v }) v
+      (by
+        unfold flagVal at hv
+        split at hv
+        · injection hv with hv; subst hv; rfl
+        · cases hv)
+    refine ⟨sU.1, fun rest s => ?_⟩
+    simpa [offerStep, capacityType, pushAmtType, leaseDurationType, signPubKeyType, sigOfferDigestType,
+      offerAutoType, unannouncedChannelType] using sU.2 rest s
+  refine good_cons_opt _ (fun v hv => ?_) trivial
+  · have sZ := static_good (σ := OfferAcc) 1 (by decide) (fun v a => { a with isZeroConf := beNat v }) v
+      (by
+        unfold flagVal at hv
+        split at hv
+        · injection hv with hv; subst hv; rfl
+        · cases hv)
+    refine ⟨sZ.1, fun rest s => ?_⟩
+    simpa [offerStep, capacityType, pushAmtType, leaseDurationType, signPubKeyType, sigOfferDigestType,
+      offerAutoType, unannouncedChannelType, zeroConfChannelType] using sZ.2 rest s
+
+theorem serializeOffer_eq (o : Offer) : serializeOffer o = .ok (encAligned offerRecs (offerVals o)) := by
+  obtain ⟨c, p, l, k, g, a, u, z⟩ := o
+  cases k <;> cases g <;> cases u <;> cases z <;>
+    simp [serializeOffer, encodeBytes, sortRecords, insertRec, sortedTypes, encodeRecords, encAligned,
+      offerRecs, offerVals, flagVal, optRec, eSig, capacityType, pushAmtType, leaseDurationType,
+      signPubKeyType, sigOfferDigestType, offerAutoType, unannouncedChannelType, zeroConfChannelType]
+
+theorem offer_roundtrip (cfg : Cfg) (o : Offer) (h : o.wf) :
+    ∃ b, serializeOffer o = .ok b ∧ deserializeOffer cfg b = .ok o ∧ b.length ≤ 1000 := by
+  refine ⟨encAligned offerRecs (offerVals o), serializeOffer_eq o, ?_, ?_⟩
+  · unfold deserializeOffer decodeBytes decodeStream
+    have hs : sortedTypes (offerRecs.map (·.typ)) = true := by decide
+    rw [if_pos hs]
+    have hmain := decodeLoop_encAligned cfg.p2pSub cfg.maxAlloc false offerStep
+      offerRecs (offerVals o) 0 {} [] _
+      (by simp [offerRecs, IncFrom, capacityType, pushAmtType, leaseDurationType, signPubKeyType,
+            sigOfferDigestType, offerAutoType, unannouncedChannelType, zeroConfChannelType])
+      (offer_good o h) (Nat.lt_succ_self _)
+    rw [hmain]
+    obtain ⟨hc, hp, hl, hk, hg⟩ := h
+    obtain ⟨c, p, l, k, g, a, u, z⟩ := o
+    simp only at hc hp hl hk hg
+    have b1 : beNat (toBE 8 c) = c := beNat_toBE 8 c (by omega)
+    have b2 : beNat (toBE 8 p) = p := beNat_toBE 8 p (by omega)
+    have b3 : beNat (toBE 4 l) = l := beNat_toBE 4 l (by omega)
+    have e0 : beNat [(0 : UInt8)] = 0 := by decide
+    have e1 : beNat [(1 : UInt8)] = 1 := by decide
+    cases g with
+    | none =>
+      cases k <;> cases a <;> cases u <;> cases z <;>
+        simp [stepAligned, offerRecs, offerVals, offerStep, flagVal, capacityType, pushAmtType, leaseDurationType,
+          signPubKeyType, sigOfferDigestType, offerAutoType, unannouncedChannelType, zeroConfChannelType,
+          b1, b2, b3, e0, e1]
+    | some g =>
+      have hw := hg g rfl
+      cases k <;> cases a <;> cases u <;> cases z <;>
+        simp [stepAligned, offerRecs, offerVals, offerStep, flagVal, capacityType, pushAmtType, leaseDurationType,
+          signPubKeyType, sigOfferDigestType, offerAutoType, unannouncedChannelType, zeroConfChannelType,
+          b1, b2, b3, e0, e1, parseSig_sigBytes g hw]
+  · have := encAligned_length_le offerRecs (offerVals o)
+    obtain ⟨hc, hp, hl, hk, hg⟩ := h
+    obtain ⟨c, p, l, k, g, a, u, z⟩ := o
+    simp only at hk
+    have hkl : ∀ k', k = some k' → k'.length = 33 := fun k' hk' => (hk k' hk').1
+    cases k <;> cases g <;> cases u <;> cases z <;>
+      simp only [offerVals, flagVal, Option.map, boundAligned, toBE_length, sigBytes_length, List.length_cons,
+        List.length_nil, if_true, if_false, Bool.false_eq_true] at this ⊢ <;>
+      (try have := hkl _ rfl) <;> omega
+
+end Pool.Dec
+
+namespace Pool.Dec
+open Pool.Gen.C15
+
+/-! ### the whole ticket -/
+
+def encOffer (o : Offer) : Bytes := encAligned offerRecs (offerVals o)
+def encRecipient (r : Recipient) : Bytes := encAligned recipientRecs (recipientVals r)
+def encOrder (o : Order) : Bytes := encAligned orderRecs (orderVals o)
+def encExecution (e : Execution) : Bytes := encAligned executionRecs [some e.pendingChannelID]
+
+theorem serializeRecipient_eq (r : Recipient) : serializeRecipient r = .ok (encRecipient r) := by
+  obtain ⟨n, m, i⟩ := r
+  cases n <;> cases m <;>
+    simp [serializeRecipient, encodeBytes, sortRecords, insertRec, sortedTypes, encodeRecords, encAligned,
+      encRecipient, recipientRecs, recipientVals, optRec, nodePubKeyType, multiSigPubKeyType, multiSigKeyIndexType]
+
+theorem serializeOrder_eq (o : Order) : serializeOrder o = .ok (encOrder o) := by
+  obtain ⟨n, sg⟩ := o
+  cases sg <;>
+    simp [serializeOrder, encodeBytes, sortRecords, insertRec, sortedTypes, encodeRecords, encAligned, encOrder,
+      orderRecs, orderVals, eSig, bidNonceType, sigOrderDigestType]
+
+theorem serializeExecution_eq (e : Execution) : serializeExecution e = .ok (encExecution e) := by
+  simp [serializeExecution, encodeBytes, sortRecords, insertRec, sortedTypes, encodeRecords, encAligned,
+    encExecution, executionRecs]
+
+theorem ok_inj {α : Type} {a b : α} (h : (Outcome.ok a) = .ok b) : a = b := by injection h
+
+theorem offer_rt (cfg : Cfg) (o : Offer) (h : o.wf) :
+    deserializeOffer cfg (encOffer o) = .ok o ∧ (encOffer o).length ≤ 1000 := by
+  obtain ⟨b, h1, h2, h3⟩ := offer_roundtrip cfg o h
+  have : b = encOffer o := by rw [serializeOffer_eq] at h1; exact (ok_inj h1).symm
+  subst this; exact ⟨h2, h3⟩
+
+theorem recipient_rt (cfg : Cfg) (r : Recipient) (h : r.wf) :
+    deserializeRecipient cfg (encRecipient r) = .ok r ∧ (encRecipient r).length ≤ 1000 := by
+  obtain ⟨b, h1, h2, h3⟩ := recipient_roundtrip cfg r h
+  have : b = encRecipient r := by rw [serializeRecipient_eq] at h1; exact (ok_inj h1).symm
+  subst this; exact ⟨h2, h3⟩
+
+theorem order_rt (cfg : Cfg) (o : Order) (h : o.wf) :
+    deserializeOrder cfg (encOrder o) = .ok o ∧ (encOrder o).length ≤ 1000 := by
+  obtain ⟨b, h1, h2, h3⟩ := order_roundtrip cfg o h
+  have : b = encOrder o := by rw [serializeOrder_eq] at h1; exact (ok_inj h1).symm
+  subst this; exact ⟨h2, h3⟩
+
+theorem execution_rt (cfg : Cfg) (e : Execution) (h : e.wf) :
+    deserializeExecution cfg (encExecution e) = .ok e ∧ (encExecution e).length ≤ 1000 := by
+  obtain ⟨b, h1, h2, h3⟩ := execution_roundtrip cfg e h
+  have : b = encExecution e := by rw [serializeExecution_eq] at h1; exact (ok_inj h1).symm
+  subst this; exact ⟨h2, h3⟩
+
+/-- well-formed ticket: fixed-size fields have their size, numbers fit their wire width, keys are accepted
+by the key parser unchanged, signature objects are non-zero with low S -/
+def Ticket.wf (t : Ticket) : Prop :=
+  t.id.length = 8 ∧ t.version < 256 ∧ t.state < 256 ∧ t.offer.wf ∧
+  (∀ r, t.recipient = some r → r.wf) ∧ (∀ o, t.order = some o → o.wf) ∧ (∀ e, t.execution = some e → e.wf)
+
+def ticketVals (t : Ticket) : List (Option Bytes) :=
+  [some t.id, some [UInt8.ofNat t.version], some [UInt8.ofNat t.state], some (encOffer t.offer),
+   t.recipient.map encRecipient, t.order.map encOrder, t.execution.map encExecution]
+
+def ticketStep (t : Nat) (v : Bytes) (a : TicketAcc) : TicketAcc :=
+  if t = idType then { a with id := v }
+  else if t = versionType then { a with version := beNat v }
+  else if t = stateType then { a with state := beNat v }
+  else if t = offerType then { a with offerBytes := v }
+  else if t = recipientType then { a with recipientBytes := v }
+  else if t = orderType then { a with orderBytes := v }
+  else { a with executionBytes := v }
+
+theorem dVarBytes_roundtrip {σ : Type} (cfg : Cfg) (set : Bytes → σ → σ) (v rest : Bytes) (s : σ)
+    (h : v.length ≤ cfg.maxAlloc) : dVarBytes cfg set v.length (v ++ rest) s = .ok (set v s, rest) := by
+  have hlt : ¬ (v.length + rest.length < v.length) := by omega
+  have ha : ¬ (v.length > cfg.maxAlloc) := by omega
+  simp [dVarBytes, alloc, ha, readFull, hlt]
+
+theorem var_good {σ : Type} (cfg : Cfg) (hm : 1000 ≤ cfg.maxAlloc) (set : Bytes → σ → σ) (v : Bytes) (h : v.length ≤ 1000) :
+    v.length ≤ maxRecordSize ∧ ∀ rest s, dVarBytes cfg set v.length (v ++ rest) s = .ok (set v s, rest) :=
+  ⟨by have : maxRecordSize = 65535 := rfl; omega, fun rest s => dVarBytes_roundtrip cfg set v rest s (by omega)⟩
+
+theorem serializeTicket_eq (cfg : Cfg) (t : Ticket) :
+    serializeTicket t = .ok (encAligned (ticketRecs cfg) (ticketVals t)) := by
+  obtain ⟨id, ver, st, off, rcp, ord, exe⟩ := t
+  cases rcp <;> cases ord <;> cases exe <;>
+    simp [serializeTicket, serializeOffer_eq, serializeRecipient_eq, serializeOrder_eq, serializeExecution_eq,
+      sortedTypes, encodeRecords, encAligned, ticketRecs, ticketVals, encOffer, idType, versionType, stateType,
+      offerType, recipientType, orderType, executionType]
+
+theorem beNat_byte (n : Nat) (h : n < 256) : beNat [UInt8.ofNat n] = n := by
+  simp [beNat, UInt8.toNat_ofNat']; omega
+
+theorem ticket_good (cfg : Cfg) (hm : 1000 ≤ cfg.maxAlloc) (t : Ticket) (h : t.wf) :
+    Good ticketStep (ticketRecs cfg) (ticketVals t) := by
+  obtain ⟨hid, hver, hst, hoff, hr, ho, he⟩ := h
+  have sId := static_good (σ := TicketAcc) 8 (by decide) (fun v a => { a with id := v }) t.id hid
+  have sV := static_good (σ := TicketAcc) 1 (by decide) (fun v a => { a with version := beNat v }) [UInt8.ofNat t.version] rfl
+  have sS := static_good (σ := TicketAcc) 1 (by decide) (fun v a => { a with state := beNat v }) [UInt8.ofNat t.state] rfl
+  have vO := var_good cfg hm (fun v (a : TicketAcc) => { a with offerBytes := v }) (encOffer t.offer) (offer_rt cfg _ hoff).2
+  unfold ticketRecs ticketVals
+  refine good_cons_some sId.1 (fun rest s => ?_) ?_
+  · simpa [ticketStep, idType] using sId.2 rest s
+  refine good_cons_some sV.1 (fun rest s => ?_) ?_
+  · simpa [ticketStep, idType, versionType] using sV.2 rest s
+  refine good_cons_some sS.1 (fun rest s => ?_) ?_
+  · simpa [ticketStep, idType, versionType, stateType] using sS.2 rest s
+  refine good_cons_some vO.1 (fun rest s => ?_) ?_
+  · simpa [ticketStep, idType, versionType, stateType, offerType] using vO.2 rest s
+  refine good_cons_opt _ (fun v hv => ?_) ?_
+  · cases hrc : t.recipient with
+    | none => rw [hrc] at hv; cases hv
+    | some r =>
+      rw [hrc] at hv; simp only [Option.map] at hv; injection hv with hv; subst hv
+      have g := var_good cfg hm (fun v (a : TicketAcc) => { a with recipientBytes := v }) _ (recipient_rt cfg r (hr r hrc)).2
+      refine ⟨g.1, fun rest s => ?_⟩
+      simpa [ticketStep, idType, versionType, stateType, offerType, recipientType] using g.2 rest s
+  refine good_cons_opt _ (fun v hv => ?_) ?_
+  · cases hoc : t.order with
+    | none => rw [hoc] at hv; cases hv
+    | some o =>
+      rw [hoc] at hv; simp only [Option.map] at hv; injection hv with hv; subst hv
+      have g := var_good cfg hm (fun v (a : TicketAcc) => { a with orderBytes := v }) _ (order_rt cfg o (ho o hoc)).2
+      refine ⟨g.1, fun rest s => ?_⟩
+      simpa [ticketStep, idType, versionType, stateType, offerType, recipientType, orderType] using g.2 rest s
+  refine good_cons_opt _ (fun v hv => ?_) trivial
+  · cases hec : t.execution with
+    | none => rw [hec] at hv; cases hv
+    | some e =>
+      rw [hec] at hv; simp only [Option.map] at hv; injection hv with hv; subst hv
+      have g := var_good cfg hm (fun v (a : TicketAcc) => { a with executionBytes := v }) _ (execution_rt cfg e (he e hec)).2
+      refine ⟨g.1, fun rest s => ?_⟩
+      simpa [ticketStep, idType, versionType, stateType, offerType, recipientType, orderType, executionType] using g.2 rest s
+
+/-- **Ticket round trip**: every well-formed ticket – any state and version, any subset of recipient /
+order / execution, optional keys and signatures, all flag combinations – serialises to bytes that
+deserialise to the same ticket (capped or uncapped decoders). -/
+theorem ticket_roundtrip (cfg : Cfg) (hm : 1000 ≤ cfg.maxAlloc) (t : Ticket) (h : t.wf) :
+    serializeTicket t = .ok (encAligned (ticketRecs cfg) (ticketVals t)) ∧
+    deserializeTicket cfg (encAligned (ticketRecs cfg) (ticketVals t)) = .ok t := by
+  refine ⟨serializeTicket_eq cfg t, ?_⟩
+  unfold deserializeTicket decodeStream
+  have hs : sortedTypes ((ticketRecs cfg).map (·.typ)) = true := by
+    simp [ticketRecs, sortedTypes, idType, versionType, stateType, offerType, recipientType, orderType, executionType]
+  rw [if_pos hs]
+  have hmain := decodeLoop_encAligned cfg.p2pTop cfg.maxAlloc true ticketStep
+    (ticketRecs cfg) (ticketVals t) 0 {} [] _
+    (by simp [ticketRecs, IncFrom, idType, versionType, stateType, offerType, recipientType, orderType, executionType])
+    (ticket_good cfg hm t h) (Nat.lt_succ_self _)
+  rw [hmain]
+  obtain ⟨hid, hver, hst, hoff, hr, ho, he⟩ := h
+  obtain ⟨id, ver, st, off, rcp, ord, exe⟩ := t
+  simp only at hid hver hst hoff hr ho he
+  have bv := beNat_byte ver hver
+  have bs := beNat_byte st hst
+  have hO := (offer_rt cfg off hoff).1
+  cases rcp with
+  | none =>
+    cases ord with
+    | none =>
+      cases exe with
+      | none =>
+        simp [stepAligned, typesAligned, ticketRecs, ticketVals, ticketStep, optPart, idType, versionType, stateType,
+          offerType, recipientType, orderType, executionType, bv, bs, hO]
+      | some e =>
+        have hE := (execution_rt cfg e (he e rfl)).1
+        simp [stepAligned, typesAligned, ticketRecs, ticketVals, ticketStep, optPart, idType, versionType, stateType,
+          offerType, recipientType, orderType, executionType, bv, bs, hO, hE]
+    | some o =>
+      have hOr := (order_rt cfg o (ho o rfl)).1
+      cases exe with
+      | none =>
+        simp [stepAligned, typesAligned, ticketRecs, ticketVals, ticketStep, optPart, idType, versionType, stateType,
+          offerType, recipientType, orderType, executionType, bv, bs, hO, hOr]
+      | some e =>
+        have hE := (execution_rt cfg e (he e rfl)).1
+        simp [stepAligned, typesAligned, ticketRecs, ticketVals, ticketStep, optPart, idType, versionType, stateType,
+          offerType, recipientType, orderType, executionType, bv, bs, hO, hOr, hE]
+  | some r =>
+    have hR := (recipient_rt cfg r (hr r rfl)).1
+    cases ord with
+    | none =>
+      cases exe with
+      | none =>
+        simp [stepAligned, typesAligned, ticketRecs, ticketVals, ticketStep, optPart, idType, versionType, stateType,
+          offerType, recipientType, orderType, executionType, bv, bs, hO, hR]
+      | some e =>
+        have hE := (execution_rt cfg e (he e rfl)).1
+        simp [stepAligned, typesAligned, ticketRecs, ticketVals, ticketStep, optPart, idType, versionType, stateType,
+          offerType, recipientType, orderType, executionType, bv, bs, hO, hR, hE]
+    | some o =>
+      have hOr := (order_rt cfg o (ho o rfl)).1
+      cases exe with
+      | none =>
+        simp [stepAligned, typesAligned, ticketRecs, ticketVals, ticketStep, optPart, idType, versionType, stateType,
+          offerType, recipientType, orderType, executionType, bv, bs, hO, hR, hOr]
+      | some e =>
+        have hE := (execution_rt cfg e (he e rfl)).1
+        simp [stepAligned, typesAligned, ticketRecs, ticketVals, ticketStep, optPart, idType, versionType, stateType,
+          offerType, recipientType, orderType, executionType, bv, bs, hO, hR, hOr, hE]
 
 end Pool.Dec
